@@ -682,7 +682,7 @@ def run():
             return F5
         # C10-F7: a module / relation name / `that` as the value of a case branch that static evaluation removes: the a131b2a /
         # 006e33c tests sit in lower_expr, which never sees the branch
-        if case.get("stream") == "edit-f-module-or-relation-as-value" and case.get("site") in c10_gen.DEAD_SITES and case.get("model_kind") == "OErr:ENotAValue":
+        if case.get("stream") in ("edit-f-module-or-relation-as-value", "edit-a-dropped-column") and case.get("site") in c10_gen.DEAD_SITES and case.get("model_kind") == "OErr:ENotAValue":
             return F7
         # C10-F6: the name was excluded by the immediately preceding `select !{..}` from a wildcard input; the (faithful) model infers it
         if case.get("what") == "excluded-column" and case.get("model_kind") == "OInferredColumn":
